@@ -205,7 +205,10 @@ def who_writes_points(repo: Repo) -> RuleRun:
             j = Obj(f"j{i}")
             j.set("links", [])
             j.set("quality", Sym(f"q{i}"))
+            j.set("cells", set())
+            j.set("index", i)
             js.append(j)
+        grid.set("cells", [])
         link = Obj("link")
         link.set("leader", Sym("old-leader"))
         link.set("follower", Sym("old-follower"))
